@@ -614,6 +614,76 @@ harness! {
     }
 }
 
+harness! {
+    /// kind=bounded tier=quick bound="ArrayBuilder<u8, N>, N in {0,1,2,3}: destination with kb <= N pushes and source with ko <= N pushes (both symbolic), `Clone::clone_from(&mut dst, &src)` (the trait method; today the default `*dst = src.clone()`), then observe, fill up and build"
+    #[kani::unwind(7)]
+    fn c11_builder_clone_from(s) {
+        fn go<S: Src, const N: usize>(s: &mut S) {
+            let mut b = ArrayBuilder::<u8, N>::new();
+            let kb = s.upto(N);
+            let mut j = 0;
+            while j < N {
+                if j < kb {
+                    b.push(s.u8());
+                }
+                j += 1;
+            }
+            let mut o = ArrayBuilder::<u8, N>::new();
+            let ko = s.upto(N);
+            let mut model = [0u8; 4];
+            let mut j = 0;
+            while j < N {
+                if j < ko {
+                    let v = s.u8();
+                    o.push(v);
+                    model[j] = v;
+                }
+                j += 1;
+            }
+            Clone::clone_from(&mut b, &o);
+            chk!(s, b.len() == ko, "C11.builder.clone_from_len_is_source_len");
+            chk!(s, b.is_full() == (ko == N), "C11.builder.clone_from_is_full_iff_source_full");
+            chk!(s, slice_is(b.as_slice(), &model, ko), "C11.builder.clone_from_as_slice_is_source_values");
+            chk!(s, o.len() == ko && slice_is(o.as_slice(), &model, ko), "C11.builder.clone_from_leaves_source");
+            cov!(s, N == 0 || kb > ko, "C11.cover.clone_from_longer_destination");
+            cov!(s, N == 0 || kb < ko, "C11.cover.clone_from_shorter_destination");
+            let mut k = ko;
+            let mut j = 0;
+            while j < N {
+                if k < N && !b.is_full() {
+                    let v = s.u8();
+                    b.push(v);
+                    model[k] = v;
+                    k += 1;
+                }
+                j += 1;
+            }
+            chk!(s, k == N && b.is_full(), "C11.builder.clone_from_then_exactly_n_minus_len_pushes_fill");
+            if b.is_full() {
+                let arr: [u8; N] = b.build();
+                let mut ok = true;
+                let mut j = 0;
+                while j < N {
+                    if arr[j] != model[j] {
+                        ok = false;
+                    }
+                    j += 1;
+                }
+                chk!(s, ok, "C11.builder.clone_from_then_build_returns_source_then_pushed_values");
+            }
+        }
+        let n = s.upto(3);
+        cov!(s, n == 0, "C11.cover.clone_from_len0");
+        cov!(s, n == 3, "C11.cover.clone_from_len3");
+        match n {
+            0 => go::<S, 0>(s),
+            1 => go::<S, 1>(s),
+            2 => go::<S, 2>(s),
+            _ => go::<S, 3>(s),
+        }
+    }
+}
+
 // ---------------------------------------------------------------------------
 // collect_const!: the macro evaluates its iterator inside `const` items, so the input cannot be
 // symbolic; this is an enumeration of instance programs (4 chains x 6 constant inputs of length
